@@ -79,7 +79,21 @@ fn apply(doc: &mut DocumentMut, o: &J) -> Res {
     let v = o["v"].clone();
     with_table_like(doc.as_item_mut(), &path, &mut |t, is_std| match op.as_str() {
         "insert" => {
-            t.insert(&key, toml_edit::value(leaf_int(&v)));
+            if v["k"] == "t" {
+                // a new table { id = n }: a standard table under a standard table, an inline table elsewhere
+                let n = leaf_int(&v["v"][0]["val"]);
+                if is_std {
+                    let mut nt = Table::new();
+                    nt.insert("id", toml_edit::value(n));
+                    t.insert(&key, Item::Table(nt));
+                } else {
+                    let mut nt = toml_edit::InlineTable::new();
+                    nt.insert("id", n.into());
+                    t.insert(&key, Item::Value(Value::InlineTable(nt)));
+                }
+            } else {
+                t.insert(&key, toml_edit::value(leaf_int(&v)));
+            }
             Res::Ok
         }
         "remove" => {
